@@ -21,9 +21,54 @@ import (
 // Variables the library itself assigns by design are listed in writable with
 // the reason; on the pinned tree there are none.
 func checkDocumentedGlobalsFrozen(p *core.Program, r *core.Report, rule string) {
-	initFn := core.PackageInit(p.Lib)
+	checkPackageVarsFrozen(p, r, rule, p.Lib, "library", 10)
+}
+
+// checkPackageVarsFrozen is the rule for one package of the module (the library
+// for R16.6, cmd/opgen for R17.6: its word tables, defaults and flag variables).
+func checkPackageVarsFrozen(p *core.Program, r *core.Report, rule string, pkg *ssa.Package, what string, floor int) {
+	initFn := core.PackageInit(pkg)
+	// flag idioms of the CLI: a flag variable or flag set assigned from a call into package flag
+	// (`x = fs.String(…)`, `fs = flag.NewFlagSet(…)` in an init function), and a variable bound with
+	// `fs.IntVar(&x, …)`. The value such a variable holds comes from the command line by design; its
+	// default is the argument of that call, which R17.2 reads.
+	fromFlagPkg := func(v ssa.Value) bool {
+		if e, ok := v.(*ssa.Extract); ok {
+			v = e.Tuple
+		}
+		c, ok := v.(*ssa.Call)
+		if !ok {
+			return false
+		}
+		f := core.StaticCallee(c)
+		return f != nil && f.Pkg != nil && f.Pkg.Pkg.Path() == "flag"
+	}
+	flagIdiom := func(in ssa.Instruction) bool {
+		if pkg == p.Lib {
+			return false
+		}
+		switch x := in.(type) {
+		case *ssa.Store:
+			return fromFlagPkg(x.Val)
+		case *ssa.Call:
+			f := core.StaticCallee(x)
+			if f == nil || f.Pkg == nil || f.Pkg.Pkg.Path() != "flag" {
+				return false
+			}
+			// binding a whole variable of basic type is the idiom; binding a field of the defaults
+			// record or an element of a table is not
+			for _, a := range x.Call.Args {
+				switch a.(type) {
+				case *ssa.FieldAddr, *ssa.IndexAddr:
+					return false
+				}
+			}
+			return true
+		}
+		return false
+	}
 	var globals []*ssa.Global
-	for _, m := range p.Lib.Members {
+	for _, m := range pkg.Members {
 		if g, ok := m.(*ssa.Global); ok && g.Name() != "init$guard" {
 			globals = append(globals, g)
 		}
@@ -59,8 +104,29 @@ func checkDocumentedGlobalsFrozen(p *core.Program, r *core.Report, rule string) 
 		}
 		return nil
 	}
+	// addrOfGlobal: the variable whose address (or the address of a field or array element of it,
+	// without an intervening load) a pointer value is
+	var addrOfGlobal func(v ssa.Value, depth int) *ssa.Global
+	addrOfGlobal = func(v ssa.Value, depth int) *ssa.Global {
+		if depth > 6 {
+			return nil
+		}
+		if g := isG[v]; g != nil {
+			return g
+		}
+		switch x := v.(type) {
+		case *ssa.FieldAddr:
+			return addrOfGlobal(x.X, depth+1)
+		case *ssa.IndexAddr:
+			return addrOfGlobal(x.X, depth+1)
+		}
+		return nil
+	}
 	for _, fn := range p.ModuleFuncs() {
 		core.Instrs(fn, func(in ssa.Instruction) {
+			if flagIdiom(in) {
+				return
+			}
 			switch x := in.(type) {
 			case *ssa.Store:
 				if g := rootGlobal(x.Addr, 0); g != nil {
@@ -68,19 +134,19 @@ func checkDocumentedGlobalsFrozen(p *core.Program, r *core.Report, rule string) 
 						return // the variable's own initialiser (R16.1-R16.5 read it and count the stores)
 					}
 					bad[g]++
-					r.Fail(rule, core.FuncName(fn), "store to library variable "+g.Name()+" outside its initialiser", p.InstrPos(x),
+					r.Fail(rule, core.FuncName(fn), "store to "+what+" variable "+g.Name()+" outside its initialiser", p.InstrPos(x),
 						"a documented package-level value (preset, class table, budget, shipped list) is changed after initialisation")
 					return
 				}
 				if g := isG[x.Val]; g != nil {
 					bad[g]++
-					r.Fail(rule, core.FuncName(fn), "address of library variable "+g.Name()+" is stored", p.InstrPos(x), "whoever loads the pointer can change the documented value")
+					r.Fail(rule, core.FuncName(fn), "address of "+what+" variable "+g.Name()+" is stored", p.InstrPos(x), "whoever loads the pointer can change the documented value")
 				}
 				return
 			case *ssa.MapUpdate:
 				if g := rootGlobal(x.Map, 0); g != nil && fn != initFn {
 					bad[g]++
-					r.Fail(rule, core.FuncName(fn), "update of the map held by library variable "+g.Name()+" outside its initialiser", p.InstrPos(x),
+					r.Fail(rule, core.FuncName(fn), "update of the map held by "+what+" variable "+g.Name()+" outside its initialiser", p.InstrPos(x),
 						"a documented package-level table is changed after initialisation")
 				}
 				return
@@ -94,9 +160,9 @@ func checkDocumentedGlobalsFrozen(p *core.Program, r *core.Report, rule string) 
 				if op == nil || *op == nil {
 					continue
 				}
-				if g := isG[*op]; g != nil {
+				if g := addrOfGlobal(*op, 0); g != nil {
 					bad[g]++
-					r.Fail(rule, core.FuncName(fn), "address of library variable "+g.Name()+" escapes", p.InstrPos(in), "passed on as a pointer: the callee can change the documented value")
+					r.Fail(rule, core.FuncName(fn), "address of "+what+" variable "+g.Name()+" escapes", p.InstrPos(in), "passed on as a pointer: the callee can change the documented value")
 				}
 			}
 			// delete(m, k) on a library table, clear(...)
@@ -104,7 +170,7 @@ func checkDocumentedGlobalsFrozen(p *core.Program, r *core.Report, rule string) 
 				if b, ok := c.Common().Value.(*ssa.Builtin); ok && (b.Name() == "delete" || b.Name() == "clear" || b.Name() == "copy") && len(c.Common().Args) > 0 {
 					if g := rootGlobal(c.Common().Args[0], 0); g != nil && fn != initFn {
 						bad[g]++
-						r.Fail(rule, core.FuncName(fn), b.Name()+" on the value held by library variable "+g.Name(), p.InstrPos(in), "a documented package-level table or list is changed after initialisation")
+						r.Fail(rule, core.FuncName(fn), b.Name()+" on the value held by "+what+" variable "+g.Name(), p.InstrPos(in), "a documented package-level table or list is changed after initialisation")
 					}
 				}
 			}
@@ -114,8 +180,8 @@ func checkDocumentedGlobalsFrozen(p *core.Program, r *core.Report, rule string) 
 	for _, g := range globals {
 		if bad[g] == 0 {
 			n++
-			r.Pass(rule, "-", "library variable "+g.Name()+" is never stored to, updated or exposed by address outside its initialiser", "", "")
+			r.Pass(rule, "-", what+" variable "+g.Name()+" is never stored to, updated or exposed by address outside its initialiser", "", "")
 		}
 	}
-	r.Floor(rule, "package-level variables of the library", len(globals), 10)
+	r.Floor(rule, "package-level variables of the "+what, len(globals), floor)
 }
